@@ -23,7 +23,7 @@ cp "$REPO/go.sum" . 2>/dev/null
 # requirements of the compiler module are taken over as they are (no tidy: it would ask for test-only
 # dependencies of third-party packages that are not in the offline module cache)
 sed -n '/^require/,/^)/p' "$REPO/go.mod" >> go.mod
-go build -o "$S/idlx-bin" . > "$S/idlx-build.log" 2>&1 || { head -40 "$S/idlx-build.log"; echo "ENGINE-ERROR: idlx build failed (the compiler packages under test may not compile)"; exit 2; }
+go build -trimpath -o "$S/idlx-bin" . > "$S/idlx-build.log" 2>&1 || { head -40 "$S/idlx-build.log"; echo "ENGINE-ERROR: idlx build failed (the compiler packages under test may not compile)"; exit 2; }
 (cd "$REPO" && go build -o "$S/frugal" .) > "$S/frugal-build.log" 2>&1 || { head -40 "$S/frugal-build.log"; echo "ENGINE-ERROR: frugal build failed"; exit 2; }
 echo "built $S/idlx-bin $S/frugal"
 # optional: instrumented compiler for C19 (map-range rewrite), built only when asked
@@ -36,6 +36,6 @@ if [ "${VERIF_BUILD_MR:-}" = "1" ]; then
   go mod edit -require=verif/engine@v0.0.0 -replace=verif/engine=$V/engine
   if [ ! -x $V/bin/instr ]; then (cd $V/engine/instr && go build -o $V/bin/instr .) || { echo "ENGINE-ERROR: instr build"; exit 2; }; fi
   $V/bin/instr -dir . -maprange -pattern "./..." > "$S/mr-instr.log" 2>&1 || { cat "$S/mr-instr.log"; echo "ENGINE-ERROR: map-range instrumentation failed"; exit 2; }
-  go build -o "$S/frugal-mr" . > "$S/mr-build.log" 2>&1 || { head -40 "$S/mr-build.log"; echo "ENGINE-ERROR: instrumented compiler build failed"; exit 2; }
+  go build -trimpath -o "$S/frugal-mr" . > "$S/mr-build.log" 2>&1 || { head -40 "$S/mr-build.log"; echo "ENGINE-ERROR: instrumented compiler build failed"; exit 2; }
   echo "built $S/frugal-mr ($(cat $S/mr-instr.log))"
 fi
